@@ -330,6 +330,30 @@ prog_xchg(void *arg)
 			break;
 		}
 	}
+	// option calls on connected sockets (per-pipe queues are resized, contexts consulted):
+	// a failure inside one of them must come back as NNG_ENOMEM with the socket still usable
+	// - the very next call takes the same locks
+	if (ok) {
+		static const int BV[] = { 4, 1, 9 };
+		for (int i = 0; i < 3; i++) {
+			nng_socket so[2] = { a, b };
+			for (int j = 0; j < 2; j++) {
+				const char *on[2] = { NNG_OPT_SENDBUF, NNG_OPT_RECVBUF };
+				for (int q = 0; q < 2; q++) {
+					long f0 = va_failed;
+					int  rv = nng_socket_set_int(so[j], on[q], BV[i]);
+					if (rv == NNG_ENOMEM && va_failed > f0)
+						rv = nng_socket_set_int(so[j], on[q], BV[i]);
+					if (rv == NNG_ENOMEM)
+						vs_fail("C20:retry-fails",
+						    "nng_socket_set_int(%s) -> NNG_ENOMEM on retry (site %s)",
+						    on[q], va_failed_site);
+					int v = 0;
+					(void) nng_socket_get_int(so[j], on[q], &v);
+				}
+			}
+		}
+	}
 	// "later calls behave": whatever failed above (possibly inside a call that
 	// still succeeded, leaving a fallback in place), a burst of numbered
 	// messages sent before the receiver looks must come out in order, each at
